@@ -43,6 +43,7 @@ type trBatch struct {
 	mu        sync.Mutex
 	calls     map[uint64]*trCall
 	advs      []*trAdv
+	runt      *runtBatch   // set: the runt-frame responder answers instead
 	partial   atomic.Int64 // Write calls that were not whole frames
 	stalled   atomic.Bool
 	cancel    context.CancelFunc
@@ -138,6 +139,10 @@ func (b *trBatch) newConn() *fakenet.Conn {
 // onWrite is the responder. It only needs to keep the callers going; the
 // verdict about the query stream is taken from the connection's write log.
 func (a *trAdv) onWrite(c *fakenet.Conn, data []byte) error {
+	if a.b.runt != nil {
+		a.b.runt.onWrite(c, a, data)
+		return nil
+	}
 	a.mu.Lock()
 	frames := a.defr.Feed(data)
 	rest := len(a.defr.Rest())
